@@ -76,7 +76,8 @@ class Alignment:
             self.alignment_block_length,
             self.mapping_quality,
         )
-        self.tags["cg:Z:"] = self.cigar
+        if self.cigar:
+            self.tags["cg:Z:"] = self.cigar
         for k in self.tags.keys():
             line += "\t%s%s" % (k, self.tags[k])
         return line
@@ -157,22 +158,26 @@ class GAF:
         is_primary = True
         cigar = ""
 
-        # Check if there are additional tags
+        # Check if there are additional tags. The optional fields start after the twelve mandatory
+        # columns and have the form TAG:TYPE:VALUE, where VALUE is everything after the second colon.
         tags = {}
-        for k in fields:
-            if re.match("[A-Za-z][A-Za-z0-9]:[AifZHB]:[A-Za-z0-9]+", k):
-                pattern = re.findall(r"([A-Za-z][A-Za-z0-9]:[AifZHB]:)[A-Za-z0-9]+", k)[0]
-                if pattern == "cg:Z:":
-                    val = re.findall(r"[A-Za-z][A-Za-z0-9]:[AifZHB]:([A-Za-z0-9=]+)", k)[0]
-                    cigar = val
+        for k in fields[12:]:
+            m = re.match(r"([A-Za-z][A-Za-z0-9]:[AifZHB]:)(.*)", k)
+            if m is None:
+                continue
+            pattern, val = m.groups()
+            if pattern == "ds:Z:":
+                # the ds tag is ignored
+                continue
+            if pattern == "cg:Z:":
+                cigar = val
+                tags[pattern] = val
+            else:
+                if pattern not in tags:
                     tags[pattern] = val
-                else:
-                    val = re.findall(r"[A-Za-z][A-Za-z0-9]:[AifZHB]:([A-Za-z0-9.]+)", k)[0]
-                    if pattern not in tags:
-                        tags[pattern] = val
 
-                    if pattern == "tp:A:" and val not in ("P", "p"):
-                        is_primary = False
+                if pattern == "tp:A:" and val not in ("P", "p"):
+                    is_primary = False
 
         return Alignment(
             query_name,
